@@ -42,6 +42,7 @@ theorem updateClient_sub (s : St) (c : Nat) (w : Wrap) (hd : Hdr) (ibc : Bool) (
   unfold updateClient
   cases w with
   | nested => exact ht
+  | storedProposal => exact ht
   | wrapped => exact ht
   | nestedWrapped => exact ht
   | top =>
